@@ -31,6 +31,11 @@ SCENARIOS = [
     (r'__await__\.wait/callsite:event_completed_signal\.wait/requires:no_blocking_wait', 'rp_await_done_child_with_queued_descendant.py'),
     (r'__await__\.wait/callsite:get_nowait/requires', 'rp_fifo_inversion.py'),
     (r'BaseEvent\.event_bus/ensures', 'rp_event_bus_after_forward.py'),
+    (r'EventBus\.(process_event/(ensures:one_wal_append|callsite:_default_wal_handler)|_default_wal_handler/)', 'rp_wal_inline_child.py'),
+    (r'EventBus\.expect(\.notify)?/', 'rp_expect_cancelled.py'),
+    (r'EventBus\.(execute_handler/raises:only_declared|_execute_handlers/raises:|stop/|_run_loop/callsite:step/requires:not_after_cancel)', 'rp_stop_during_handler.py'),
+    (r'EventBus\.dispatch/raises:rejected', 'rp_dispatch_queue_full.py'),
+    (r'EventBus\.cleanup_event_history/', 'rp_history_evicts_inflight.py'),
     (r'BaseEvent\.event_cancel_pending_child_processing/', 'rp_cancel_walk_family.py'),
     (r'BaseEvent\.(event_are_all_children_complete|event_mark_complete_if_all_handlers_completed)/', 'rp_completion_descendants.py'),
     (r'event_results_by_handler_name/safety:dictcomp_keys_distinct', 'rp_by_handler_name_duplicates.py'),
